@@ -722,3 +722,63 @@ func (c *Ctx) checkFrozenCaptures(key string, pkgRel string, declFilter func(*as
 	}
 	return n
 }
+
+// localsDefinedBy returns the local variables of body that have a single definition accepted by pred (rename-robust
+// identification of "the variable that holds X").
+func localsDefinedBy(info *types.Info, body *ast.BlockStmt, pred func(def ast.Expr) bool) []types.Object {
+	var out []types.Object
+	seen := map[types.Object]bool{}
+	ast.Inspect(body, func(n ast.Node) bool {
+		id, ok := n.(*ast.Ident)
+		if !ok {
+			return true
+		}
+		obj := info.Defs[id]
+		if obj == nil || seen[obj] {
+			return true
+		}
+		seen[obj] = true
+		if def := singleLocalDefIn(info, body, obj); def != nil && pred(def) {
+			out = append(out, obj)
+		}
+		return true
+	})
+	return out
+}
+
+// containsNode reports whether some node under e satisfies m.
+func containsNode(e ast.Node, m func(ast.Node) bool) bool {
+	found := false
+	ast.Inspect(e, func(n ast.Node) bool {
+		if n != nil && !found && m(n) {
+			found = true
+		}
+		return !found
+	})
+	return found
+}
+
+// commaOkLocals returns the boolean locals of body that are the last left-hand side of a multi-value definition
+// (v, ok := m[k] / x.(T) / f()), i.e. "the ok of a comma-ok form", independent of their names.
+func commaOkLocals(info *types.Info, body *ast.BlockStmt) map[types.Object]bool {
+	out := map[types.Object]bool{}
+	ast.Inspect(body, func(n ast.Node) bool {
+		as, ok := n.(*ast.AssignStmt)
+		if !ok || len(as.Lhs) < 2 || len(as.Rhs) != 1 {
+			return true
+		}
+		id, ok := as.Lhs[len(as.Lhs)-1].(*ast.Ident)
+		if !ok {
+			return true
+		}
+		obj := info.ObjectOf(id)
+		if obj == nil {
+			return true
+		}
+		if bt, ok := obj.Type().Underlying().(*types.Basic); ok && bt.Info()&types.IsBoolean != 0 {
+			out[obj] = true
+		}
+		return true
+	})
+	return out
+}
